@@ -51,9 +51,11 @@ INFRA = r"""
     impl VkCtx for bool { fn code(&self) -> u8 { if *self { 1 } else { 0 } } }
 
     // ---------------------------------------------------------------- an arbitrary parser that satisfies K
-    pub struct VkAny { pub id: u8, pub ctx: u8, pub progress: bool }
-    pub fn vk_any(id: u8) -> VkAny { VkAny { id, ctx: 200, progress: false } }
-    pub fn vk_any_progress(id: u8) -> VkAny { VkAny { id, ctx: 200, progress: true } }
+    pub struct VkAny { pub id: u8, pub ctx: u8, pub progress: bool, pub leaky: bool }
+    pub fn vk_any(id: u8) -> VkAny { VkAny { id, ctx: 200, progress: false, leaky: false } }
+    /// a parser of the documented non-rewinding kind (and_then, flatten, seq*): a soft failure may leave the position moved
+    pub fn vk_any_leaky(id: u8) -> VkAny { VkAny { id, ctx: 200, progress: false, leaky: true } }
+    pub fn vk_any_progress(id: u8) -> VkAny { VkAny { id, ctx: 200, progress: true, leaky: false } }
     impl VkAny {
         pub fn run(&mut self, input: &mut VkInput) -> Result<u8, VkErr> {
             let log = vk_log();
@@ -65,7 +67,7 @@ INFRA = r"""
             kani::assume(adv <= 3);
             if self.progress && k == OK { kani::assume(adv >= 1); }
             let val: u8 = kani::any();
-            if k != SOFT { input.pos = start + adv; }                 // a soft failure leaves the position where it was
+            if k != SOFT || self.leaky { input.pos = start + adv; }   // a soft failure leaves the position where it was (unless leaky)
             if log.n < VK_MAX {
                 log.who[log.n] = self.id; log.at[log.n] = start; log.end[log.n] = input.pos; log.out[log.n] = k;
                 log.val[log.n] = val; log.ctx[log.n] = self.ctx;
@@ -198,6 +200,25 @@ for variant, build, val in (
         }
         """ % (build, val.replace("v ==", "v ==")), functions=["rusty_pc::and::AndParser::parse", "rusty_pc::Parser::" + variant.replace("and_combiner", "and")])
 
+add("vk_c20_and_undo_with_non_rewinding_right", """
+        // sequence-with-undo restores the position itself: even a right side of the non-rewinding kind is undone
+        vk_reset(7);
+        let (mut input, start) = vk_start();
+        let mut p = vk_any(1).and_tuple(vk_any_leaky(2));
+        let r = Parser::<VkInput, u8>::parse(&mut p, &mut input);
+        vk_k!(start, input, r);
+        let l = vk_log();
+        if l.n == 2 && l.out[1] == SOFT { assert!(input.pos == start); }
+        """, functions=["rusty_pc::and::AndParser::parse"])
+add("vk_c20_surround_optional_with_non_rewinding_content", """
+        vk_reset(7);
+        let (mut input, start) = vk_start();
+        let mut p = surround(vk_any(1), vk_any_leaky(2), vk_any(3), SurroundMode::Optional);
+        let r = Parser::<VkInput, u8>::parse(&mut p, &mut input);
+        vk_k!(start, input, r);
+        let l = vk_log();
+        if l.n == 2 && l.out[0] != FATAL && l.out[1] == SOFT { assert!(input.pos == start && vk_class!(r) == SOFT); }
+        """, functions=["rusty_pc::SurroundParser::parse"])
 # ------------------------------------------------------------------------------------------------ choice
 add("vk_c20_or_boxed3", """
         vk_reset(7);
@@ -227,6 +248,34 @@ add("vk_c20_or_boxed3", """
         }
         std::mem::forget(p);
         """, unwind=5, functions=["rusty_pc::OrParser::parse", "rusty_pc::OrParser::new"])
+add("vk_c20_or_boxed3_retry_position", """
+        // alternatives of the documented non-rewinding kind (built with and_then / flatten / seq*): boxed choice itself
+        // restores the position before each retry, so every alternative still starts from the original position
+        vk_reset(7);
+        let (mut input, start) = vk_start();
+        let alts: Vec<Box<dyn Parser<VkInput, u8, Output = u8, Error = VkErr>>> =
+            vec![Box::new(vk_any_leaky(1)), Box::new(vk_any_leaky(2)), Box::new(vk_any_leaky(3))];
+        let mut p = OrParser::new(alts);
+        let r = p.parse(&mut input);
+        let l = vk_log();
+        assert!(l.n >= 1 && l.n <= 3);
+        let mut k = 0usize;
+        while k < 3 {
+            if k < l.n {
+                assert!(l.who[k] == (k as u8) + 1);
+                assert!(l.at[k] == start);                           // choice tries each alternative from the original position
+                if k + 1 < l.n { assert!(l.out[k] == SOFT); }
+            }
+            k += 1;
+        }
+        let last = l.n - 1;
+        if l.n < 3 { assert!(l.out[last] != SOFT); }
+        match &r {
+            Ok(v) => { assert!(l.out[last] == OK && *v == l.val[last] && input.pos == l.end[last]); }
+            Err(e) => { assert!(l.out[last] != OK && e.fatal == (l.out[last] == FATAL) && e.id == l.val[last]); }
+        }
+        std::mem::forget(p);
+        """, unwind=5, functions=["rusty_pc::OrParser::parse"])
 add("vk_c20_or_two_way", """
         vk_reset(7);
         let (mut input, start) = vk_start();
